@@ -29,6 +29,27 @@ theorem ensure_struct_unk {t1 t2 : Tracer} (h1 : t1.is_unknown_or_null = true) (
   rw [enforce_path hp, h1, h2, hn, hp, hl]
   simp
 
+theorem ensure_map_unk {t1 t2 : Tracer} (h1 : t1.is_unknown_or_null = true) (h2 : t2.is_unknown_or_null = true)
+    (hn : t1.name = t2.name) (hp : t1.path = t2.path) (hl : t1.nullable = t2.nullable) :
+    t1.ensure_map = t2.ensure_map := by
+  unfold Tracer.ensure_map
+  rw [enforce_path hp, h1, h2, hn, hp, hl]
+  simp
+
+theorem ensure_tuple_unk {t1 t2 : Tracer} (h1 : t1.is_unknown_or_null = true) (h2 : t2.is_unknown_or_null = true)
+    (hn : t1.name = t2.name) (hp : t1.path = t2.path) (hl : t1.nullable = t2.nullable) (c : Code) (k : Nat) :
+    t1.ensure_tuple c k = t2.ensure_tuple c k := by
+  unfold Tracer.ensure_tuple
+  rw [enforce_path hp, h1, h2, hn, hp, hl]
+  simp
+
+theorem ensure_union_unk {t1 t2 : Tracer} (h1 : t1.is_unknown_or_null = true) (h2 : t2.is_unknown_or_null = true)
+    (hn : t1.name = t2.name) (hp : t1.path = t2.path) (hl : t1.nullable = t2.nullable) (vs : List String) :
+    t1.ensure_union vs = t2.ensure_union vs := by
+  unfold Tracer.ensure_union
+  rw [enforce_path hp, h1, h2, hn, hp, hl]
+  simp
+
 /-- the node a null leaf sample leaves behind -/
 def nullify : Tracer → Tracer
   | .unknown n p _ => .primitive n p true .null none
@@ -113,40 +134,43 @@ theorem swap_leaf_leaf {o : Options} (hno : o.allow_to_string = false) {x y : SV
 theorem shape_not_leaf {t : Tracer} {S : Shape} (h : Tracer.shape t = some S) : Tracer.isLeaf t = false := by
   cases t <;> simp_all [Tracer.shape, Tracer.isLeaf]
 
+/-- container samples treat `Primitive(Null)` like `Unknown` -/
+def UnkIff (o : Options) (y : SVal) : Prop :=
+  ∀ n p nl a, absorb .fixed o (.primitive n p nl .null none) y = .ok a ↔ absorb .fixed o (.unknown n p nl) y = .ok a
+
 /-- a null leaf and a container sample commute exactly -/
-theorem null_cont_eq {o : Options} {x y : SVal} {S : Shape} (hx : leafTypeOf o x = some .null)
-    (hy : NeedsShape o y S) (hyu : ∀ n p nl, absorb .fixed o (.primitive n p nl .null none) y = absorb .fixed o (.unknown n p nl) y)
-    {t : Tracer} (hw : WF o t) : absorb2 .fixed o t x y = absorb2 .fixed o t y x := by
-  have e1 : absorb2 .fixed o t x y = (absorb .fixed o t y).map Tracer.mark_nullable := by
+theorem null_cont_iff {o : Options} {x y : SVal} {S : Shape} (hx : leafTypeOf o x = some .null)
+    (hy : NeedsShape o y S) (hyu : UnkIff o y) {t : Tracer} (hw : WF o t) (a : Tracer) :
+    absorb2 .fixed o t x y = .ok a ↔ absorb2 .fixed o t y x = .ok a := by
+  have e1 : absorb2 .fixed o t x y = absorb .fixed o (nullify t) y := by
     unfold absorb2
     rw [absorb_null_leaf hx hw]
-    simp only
-    rw [← absorb_mark]
-    cases t <;> first | rfl | skip
-    exact hyu _ _ _
-  rw [e1]
-  unfold absorb2
-  cases h : absorb .fixed o t y with
-  | error e => rfl
-  | ok a0 =>
-    simp only [Except.map]
-    have hl := shape_not_leaf (hy t a0 h).1
-    rw [absorb_prim .fixed o _ hx, Tracer.ensure_primitive, ensure_prim_container o hl]
-    rfl
+  have e2 : absorb .fixed o (nullify t) y = .ok a ↔ absorb .fixed o t.mark_nullable y = .ok a := by
+    cases t <;> first | exact Iff.rfl | skip
+    exact hyu _ _ _ a
+  have e3 : absorb2 .fixed o t y x = (absorb .fixed o t y).map Tracer.mark_nullable := by
+    unfold absorb2
+    cases h : absorb .fixed o t y with
+    | error e => rfl
+    | ok a0 =>
+      simp only [Except.map]
+      have hl := shape_not_leaf (hy t a0 h).1
+      rw [absorb_prim .fixed o _ hx, Tracer.ensure_primitive, ensure_prim_container o hl]
+      rfl
+  rw [e1, e2, absorb_mark, e3]
 
 theorem swap_leaf_cont {o : Options} {x y : SVal} {ty : DataType} {S : Shape} (hx : leafTypeOf o x = some ty)
-    (hy : NeedsShape o y S) (hcy : Cong o y)
-    (hyu : ∀ n p nl, absorb .fixed o (.primitive n p nl .null none) y = absorb .fixed o (.unknown n p nl) y) :
+    (hy : NeedsShape o y S) (hcy : Cong o y) (hyu : UnkIff o y) :
     Swap o x y ∧ Swap o y x := by
-  have hwf : ∀ t a, WF o t → ty = .null → absorb2 .fixed o t x y = .ok a → WF o a := by
+  have hwf : ∀ t a, WF o t → ty = .null → absorb2 .fixed o t y x = .ok a → WF o a := by
     intro t a hw e ha
     subst e
-    unfold absorb2 at ha
-    rw [absorb_null_leaf hx hw] at ha
-    simp only at ha
-    refine hcy.wf ?_ ha
-    cases t <;> first | exact WF_mark hw | skip
-    simp only [nullify]; rw [WF]; exact ⟨rfl, mem_leafStates.mpr ⟨by simp [leafTypes], fun _ => rfl⟩⟩
+    obtain ⟨m, h1, h2⟩ := absorb2_ok ha
+    have hl := shape_not_leaf (hy t m h1).1
+    rw [absorb_prim .fixed o _ hx, Tracer.ensure_primitive, ensure_prim_container o hl] at h2
+    simp only [isNull, if_true] at h2
+    cases h2
+    exact WF_mark (hcy.wf hw h1)
   constructor
   · intro t a hw ha
     have hnull : ty = .null := by
@@ -179,9 +203,8 @@ theorem swap_leaf_cont {o : Options} {x y : SVal} {ty : DataType} {S : Shape} (h
             subst e'
             exact act_null hs (leafTypeOf_mem o hx) h3 rfl
     subst hnull
-    have hwa := hwf t a hw rfl ha
-    rw [null_cont_eq hx hy hyu hw] at ha
-    exact ⟨a, ha, TEq_refl o a hwa⟩
+    have ha' := (null_cont_iff hx hy hyu hw a).mp ha
+    exact ⟨a, ha', TEq_refl o a (hwf t a hw rfl ha')⟩
   · intro t a hw ha
     have hnull : ty = .null := by
       obtain ⟨m, h1, h2⟩ := absorb2_ok ha
@@ -191,8 +214,7 @@ theorem swap_leaf_cont {o : Options} {x y : SVal} {ty : DataType} {S : Shape} (h
       · exact isNull_iff.mp hn
       · simp only [hn] at h2; cases h2
     subst hnull
-    rw [← null_cont_eq hx hy hyu hw] at ha
-    exact ⟨a, ha, TEq_refl o a (hwf t a hw rfl ha)⟩
+    exact ⟨a, (null_cont_iff hx hy hyu hw a).mpr ha, TEq_refl o a (hwf t a hw rfl ha)⟩
 
 /-! ### containers of different shapes -/
 
